@@ -3,7 +3,7 @@
 //! outside the target changes.  Fonts: built by recipe, loaded and edited, loaded from crafted
 //! UFOs whose contents.plist / layercontents.plist hold unusual paths.
 use crate::c08::common::*;
-use crate::c08::{collide_edits, fresh_sandbox, make_prior, modify, prepare_loaded, prior_for, run_save, try_store_keys, Prepared, Prior};
+use crate::c08::{collide_edits,  fresh_sandbox, make_prior, modify, prepare_loaded, prior_for, run_save, try_store_keys, Prepared, Prior};
 use crate::util::*;
 use norad::{DataRequest, Font};
 use std::collections::BTreeSet;
@@ -290,9 +290,33 @@ pub fn case(seed: u64, idx: u64, out: &Path, verbose: bool, force_variant: Optio
         make_prior(&sb.join(target_rel.join("/")), prior, &mut r);
     }
     let run = run_save(&p, out, idx, &sb, &target_rel);
+    let c = judge(&p, &run, &Ctx9 { idx, kind, variant, crafted_loaded, prior, in_place, sb: &sb, target_rel: &target_rel, verbose, extra: vec![] });
+    let _ = std::fs::remove_dir_all(&sb);
+    c
+}
+
+pub struct Ctx9<'a> {
+    pub idx: u64,
+    pub kind: u64,
+    pub variant: u64,
+    pub crafted_loaded: bool,
+    pub prior: Prior,
+    pub in_place: bool,
+    pub sb: &'a Path,
+    pub target_rel: &'a [String],
+    pub verbose: bool,
+    /// failures found outside the save itself (added to the tree check)
+    pub extra: Vec<String>,
+}
+
+/// the property oracle on one save
+pub fn judge(p: &Prepared, run: &crate::c08::SaveRun, cx: &Ctx9) -> CaseOut {
+    let (idx, kind, variant, crafted_loaded, prior, in_place, sb, target_rel, verbose) =
+        (cx.idx, cx.kind, cx.variant, cx.crafted_loaded, cx.prior, cx.in_place, cx.sb, cx.target_rel, cx.verbose);
     // ------------------------------------------------------------ property oracle
     let troot = target_rel.join("/");
-    let mut fail_tree: Vec<String> = vec![];
+    let mut fail_tree: Vec<String> = cx.extra.clone();
+    fail_tree.extend(p.notes.iter().filter(|n| n.starts_with("SOURCE-RELOAD-FAILED")).cloned());
     let mut fail_frame: Vec<String> = vec![];
     let mut fail_opt: Vec<String> = vec![];
     let saved = run.obs.1 == "Saved";
@@ -407,8 +431,108 @@ pub fn case(seed: u64, idx: u64, out: &Path, verbose: bool, force_variant: Optio
         println!("tree check: {:?}\nframe check: {:?}\noptional files: {:?}\nglyph files: {:?}", fail_tree, fail_frame, fail_opt, fail_glyphs);
         println!("class F8 (non-plain loaded path): {}; class reserved-name: {}", c_f8, c_res);
     }
+    CaseOut { gallina: run.gallina.clone(), json }
+}
+
+/// One thread, two fonts: a save of font B that must fail (every failure kind the harness can
+/// produce), then font A saved to a fresh path and over an existing target.  A's tree must be what
+/// a thread without history writes (the reference save runs in a thread of its own).
+pub fn cross_case(seed: u64, idx: u64, out: &Path, verbose: bool) -> Vec<CaseOut> {
+    let mut r = Rng::new(seed.wrapping_mul(0x9E37_79B9_7F4A_7C15) ^ idx.wrapping_mul(0xD1B5_4A32_D192_ED03) ^ 0xC805);
+    let sb = fresh_sandbox(out, "sbx", idx);
+    let mut outs = vec![];
+    // ---- font B
+    let fail_kind = (idx / 7) % 6;
+    let mut rb = Recipe::random_valid(&mut r);
+    for l in rb.layers.iter_mut() {
+        if l.glyphs.is_empty() {
+            l.glyphs.push(GlyphR { name: "first".into(), objlibs: false, uid: false, width: 3 });
+        }
+    }
+    let mut pb;
+    match fail_kind {
+        0 | 1 => {
+            // encoding fails in the middle of a layer: glyphs sorted before it are already written
+            let li = if fail_kind == 0 { 0 } else { rb.layers.len() - 1 };
+            rb.layers[li].glyphs.push(GlyphR { name: (if r.chance(1, 2) { "uid" } else { "Auid" }).into(), objlibs: false, uid: true, width: 9 });
+            let (font, shadow) = build_font(&rb);
+            pb = Prepared { font, shadow, groups_ok: true, info_valid: true, loaded_from: None, preserve: BTreeSet::new(), notes: vec!["font B: a Uid in a glyph lib (the glyph cannot be encoded)".into()] };
+        }
+        2 => {
+            rb.layers[0].glyphs.push(GlyphR { name: "late".into(), objlibs: true, uid: false, width: 1 });
+            let (font, shadow) = build_font(&rb);
+            pb = Prepared { font, shadow, groups_ok: true, info_valid: true, loaded_from: None, preserve: BTreeSet::new(), notes: vec!["font B: public.objectLibs in a glyph lib".into()] };
+        }
+        3 => {
+            let (font, shadow) = build_font(&rb);
+            pb = Prepared { font, shadow, groups_ok: true, info_valid: true, loaded_from: None, preserve: BTreeSet::new(), notes: vec!["font B: public.objectLibs in the font lib".into()] };
+            crate::c08::inject(&mut pb, 2, &mut r);
+        }
+        4 => {
+            let (font, shadow) = build_font(&rb);
+            pb = Prepared { font, shadow, groups_ok: true, info_valid: true, loaded_from: None, preserve: BTreeSet::new(), notes: vec!["font B: invalid font info".into()] };
+            crate::c08::inject(&mut pb, 8, &mut r);
+        }
+        _ => {
+            // a loaded font with an image that is not a PNG: the store entry is in error
+            pb = prepare_loaded(&sb, &mut r, false);
+            std::fs::write(sb.join("src.ufo/images").join("late-bad.png"), b"GIF89a").ok();
+            std::fs::create_dir_all(sb.join("src.ufo/images")).unwrap();
+            std::fs::write(sb.join("src.ufo/images/late-bad.png"), b"GIF89a").unwrap();
+            pb = {
+                let font = Font::load(sb.join("src.ufo")).unwrap();
+                let shadow = Shadow::opened(&font, &split_rel("src.ufo"));
+                Prepared { font, shadow, groups_ok: true, info_valid: true, loaded_from: Some(split_rel("src.ufo")), preserve: BTreeSet::new(), notes: pb.notes.clone() }
+            };
+            pb.notes.push("font B: an image without the PNG signature".into());
+        }
+    }
+    let mut extra = vec![];
+    // Glyph::save failing, then Glyph::save of another glyph: its file is its encoding
+    {
+        let bad = make_glyph(&GlyphR { name: "g-uid".into(), objlibs: false, uid: true, width: 2 });
+        let good = make_glyph(&GlyphR { name: "g-ok".into(), objlibs: false, uid: false, width: 4 });
+        let gp = sb.join("zone/loose.glif");
+        if catch(|| bad.save(sb.join("zone/never.glif"))).map(|x| x.is_ok()).unwrap_or(true) {
+            extra.push("Glyph::save of a glyph with a Uid in its lib did not fail".into());
+        }
+        let _ = std::fs::remove_file(sb.join("zone/never.glif"));
+        match (catch(|| good.save(&gp)), good.encode_xml()) {
+            (Ok(Ok(())), Ok(want)) => {
+                if std::fs::read(&gp).ok() != Some(want) {
+                    extra.push("Glyph::save after a failed Glyph::save wrote something else than the glyph's encoding".into());
+                }
+            }
+            _ => extra.push("Glyph::save of a plain glyph failed".into()),
+        }
+        let _ = std::fs::remove_file(&gp);
+    }
+    let tb = split_rel("zone/b.ufo");
+    let run_b = run_save(&pb, out, idx * 4, &sb, &tb);
+    if run_b.obs.1 == "Saved" {
+        extra.push("font B was saved although it cannot be".into());
+    }
+    outs.push(judge(&pb, &run_b, &Ctx9 { idx, kind: 3, variant: 100 + fail_kind, crafted_loaded: false, prior: Prior::Absent, in_place: false, sb: &sb, target_rel: &tb, verbose, extra }));
+    // ---- font A, same thread: to a fresh path, then over something
+    let mut ra = Recipe::random_valid(&mut r);
+    if ra.layers[0].glyphs.is_empty() {
+        ra.layers[0].glyphs.push(GlyphR { name: "a".into(), objlibs: false, uid: false, width: 5 });
+    }
+    let (font, shadow) = build_font(&ra);
+    let pa = Prepared { font, shadow, groups_ok: true, info_valid: true, loaded_from: None, preserve: BTreeSet::new(), notes: vec![format!("font A, saved after the failed save of font B ({})", pb.notes.last().cloned().unwrap_or_default())] };
+    let ta = split_rel("zone/a-fresh.ufo");
+    let run_a = run_save(&pa, out, idx * 4 + 1, &sb, &ta);
+    outs.push(judge(&pa, &run_a, &Ctx9 { idx, kind: 3, variant: 110 + fail_kind, crafted_loaded: false, prior: Prior::Absent, in_place: false, sb: &sb, target_rel: &ta, verbose, extra: vec![] }));
+    // B fails once more, then A over an existing target
+    let _ = catch(|| pb.font.save(sb.join("zone/b2.ufo")));
+    let _ = std::fs::remove_dir_all(sb.join("zone/b2.ufo"));
+    let prior = [Prior::OtherUfo, Prior::LargerUfo, Prior::StaleOptional, Prior::JunkNoMeta][(idx % 4) as usize];
+    let tt = split_rel("zone/t.ufo");
+    make_prior(&sb.join("zone/t.ufo"), prior, &mut r);
+    let run_a2 = run_save(&pa, out, idx * 4 + 2, &sb, &tt);
+    outs.push(judge(&pa, &run_a2, &Ctx9 { idx, kind: 3, variant: 120 + fail_kind, crafted_loaded: false, prior, in_place: false, sb: &sb, target_rel: &tt, verbose, extra: vec![] }));
     let _ = std::fs::remove_dir_all(&sb);
-    CaseOut { gallina: run.gallina, json }
+    outs
 }
 
 pub fn main(a: &Args) {
@@ -417,6 +541,12 @@ pub fn main(a: &Args) {
         // replay file: "<seed> <index>" or "variant <n>" (corpus witness)
         let t = std::fs::read_to_string(rp).unwrap();
         let w: Vec<&str> = t.split_whitespace().collect();
+        if w.len() > 2 && w[2] == "x" {
+            for c in cross_case(w[0].parse().unwrap(), w[1].parse().unwrap(), &a.out, true) {
+                println!("{}", c.json);
+            }
+            return;
+        }
         let c = if w[0] == "variant" {
             case(1, w[1].parse::<u64>().unwrap() * 3, &a.out, true, Some(w[1].parse().unwrap()))
         } else {
@@ -430,6 +560,14 @@ pub fn main(a: &Args) {
     let mut j = String::new();
     // corpus first: the witness of F8 (crafted variant 0), saved elsewhere
     for i in 0..n {
+        if i % 7 == 3 {
+            for c in cross_case(a.seed, i, &a.out, false) {
+                g.push_str(&c.gallina);
+                g.push('\n');
+                j.push_str(&c.json);
+                j.push('\n');
+            }
+        }
         let c = if i == 0 { case(a.seed, 0, &a.out, false, Some(0)) } else { case(a.seed, i, &a.out, false, None) };
         g.push_str(&c.gallina);
         g.push('\n');
